@@ -235,6 +235,11 @@ class Exec:
                     fc |= free_consts(f)
                     bn |= bound_names(f)
             clash = fc & bn
+            if clash and os.environ.get("PYVC_DEBUG_LEAK"):
+                for f in hyps + [goal]:
+                    if is_z3(f) and (set(free_consts(f)) & clash):
+                        print("LEAK-IN", "GF" if any(f is g for g in gfs) else "PC/GOAL", f.sexpr()[:1500])
+                        break
             if clash:
                 raise Unsupported("value created under a quantifier's bound variable leaks: %s" % sorted(clash)[:3])
         split = (info or {}).get("split_on")
@@ -1148,6 +1153,10 @@ class Exec:
         else:
             res = self.fresh_result(rt, env, st)
         spec_env["result"] = res
+        for gname, gtext in (c.ghost.get("defs") or {}).items():
+            # the callee's ghost definitions (spec values over its parameters), evaluated on the arguments as they were at entry
+            if gname not in spec_env:
+                spec_env[gname] = self.spec_value(gtext, dict(spec_env), st, old_st=pre_st)
         if c.ghost.get("introduces_groups"):
             # the callee's clauses speak of ghost run boundaries (group_lo / n_groups): some such exist after the call
             gG = fresh(I, "n_groups")
